@@ -19,6 +19,11 @@ func c10Gen(g *G) {
 	g.Emit("c10.run o g0;w1;h;u;c(u,a0);^u;W", "late-delivery")
 	g.Emit("c10.run o h;h;n55;^x;g0;w1;^u;a0", "late-delivery")
 	g.Emit("c10.run o g0;w1;u;W;=;W;a0", "resend")
+	// the numbering goes on across a reconnection inside the session; a server whose clock is ahead rejects a
+	// request with "msg_id too low" / "too high" (its caller gets the error) and the numbering rules still hold
+	g.Emit("c10.run o,o,o g0;w1;u;a0;j;close;g1;w2;a1;j;close;u;g2;w3;a2", "reconnect")
+	g.Emit("c10.run o,o,o,o K600;g0;w1;a0;j;g1;w2;T1;j;g2;w3;a2;j;g3;w4;u;a3", "server-clock-ahead")
+	g.Emit("c10.run o,o,o K86400;g0+1;w2;c(T0,a1);j;g2;w3;U2;j;g0;w4;a0", "server-clock-ahead")
 	n := g.N(60, 1500)
 	for i := 0; i < n; i++ {
 		if r.Intn(3) == 0 {
@@ -64,6 +69,14 @@ func c10Gen(g *G) {
 			plan = append(plan, rsAnswerPlan(r, rest, []string{"u", "p"})...)
 			if r.Intn(3) == 0 {
 				plan = append(plan, "u", "W", "=")
+			}
+			if r.Intn(3) == 0 {
+				// a reconnection, then one more round by the first wave
+				plan = append(plan, "j", "close", "g"+rsJoinInts("", w1, "+"), fmt.Sprintf("w%d", k1+k2+k1))
+				plan = append(plan, rsAnswerPlan(r, rsPerm(r, k1), []string{"u"})...)
+			}
+			if r.Intn(4) == 0 {
+				plan = append([]string{fmt.Sprintf("K%d", 60+r.Intn(100000))}, plan...)
 			}
 			g.Emit(fmt.Sprintf("c10.run %s %s", strings.Join(kinds, ","), strings.Join(plan, ";")), "yield-two-waves", fmt.Sprintf("callers=%d", k1+k2))
 			continue
